@@ -1,6 +1,6 @@
 """Human-written part of MANIFEST.json per property."""
 
-HOOK_COMMITS = []
+HOOK_COMMITS = ["1d195fa"]
 
 NOT_APPLICABLE_REASONS = {}
 
